@@ -131,9 +131,22 @@ def _assigned_in(body):
             if n.name:
                 names.add(n.name)
             s.generic_visit(n)
+
+        def visit_Call(s, n):
+            if isinstance(n.func, ast.Attribute) and isinstance(n.func.value, ast.Name) and n.func.attr in MUTATORS:
+                names.add(n.func.value.id)
+            s.generic_visit(n)
+
+        def visit_Subscript(s, n):
+            if isinstance(n.ctx, (ast.Store, ast.Del)) and isinstance(n.value, ast.Name):
+                names.add(n.value.id)
+            s.generic_visit(n)
     for st in body:
         V().visit(st)
     return names
+
+
+MUTATORS = {"append", "insert", "pop", "extend", "remove", "clear", "add", "update", "sort", "reverse", "discard", "setdefault", "popitem", "appendleft", "popleft"}
 
 
 def _acc_names(P, body, locals_):
